@@ -1,4 +1,165 @@
+/-
+  C11 — update rewrites only the addressed rule's @rx operand.
+
+  Model: `Crs.Update.updateRegex` (cmd/regex_update.go: updateRegex; regex/definitions.go: RuleRxRegex,
+  SecRuleRegex) on the bytes of one rules file.
+-/
 import Crs.Update
+import CrsProofs.Update
 namespace Crs.Props
-theorem C11_placeholder : True := trivial
+open Crs Crs.Update
+
+/-- **C11 (frame).** A successful update changes exactly one line `i` of the file (lines as separated by
+    `\n`; carriage returns, the final newline or its absence are part of the untouched bytes), and on that
+    line exactly the text between the first `"@rx ` / `"!@rx ` and the last `" \`: everything before the
+    operand and everything after it is kept. -/
+theorem C11_frame (c id : Bytes) (k : Nat) (r c' : Bytes) (h : updateRegex c id k r = .ok c') :
+    ∃ i pre old post,
+      (splitNl c)[i]? = some (pre ++ old ++ post) ∧
+      (∃ x, pre = x ++ rxA ∨ pre = x ++ rxB) ∧ hasPrefix closeQ post = true ∧
+      c' = joinNl (setAt (splitNl c) i (pre ++ r ++ post)) ∧
+      (∀ j, j ≠ i → (setAt (splitNl c) i (pre ++ r ++ post))[j]? = (splitNl c)[j]?) := by
+  unfold updateRegex at h
+  simp only at h
+  split at h
+  · simp at h
+  · rename_i i hi
+    split at h
+    · simp at h
+    · rename_i line hline
+      split at h
+      · simp at h
+      · rename_i pre old post hop
+        simp only [Except.ok.injEq] at h
+        obtain ⟨hl, hx, hp⟩ := splitOperand_shape line pre old post hop
+        exact ⟨i, pre, old, post, by rw [hline, hl], hx, hp, h.symm, fun j hj => setAt_getElem?_other _ _ _ _ hj⟩
+
+/-- when the new regex is a single line, the result split at `\n` is the old list of lines with line `i`
+    replaced: no line is added, removed or moved, and joining them loses nothing (`joinNl ∘ splitNl = id`) -/
+theorem C11_lines (c id : Bytes) (k : Nat) (r c' : Bytes) (h : updateRegex c id k r = .ok c') (hr : '\n' ∉ r) :
+    ∃ i pre old post, (splitNl c)[i]? = some (pre ++ old ++ post) ∧
+      splitNl c' = setAt (splitNl c) i (pre ++ r ++ post) ∧ (splitNl c').length = (splitNl c).length := by
+  obtain ⟨i, pre, old, post, hi, _, _, hc, _⟩ := C11_frame c id k r c' h
+  refine ⟨i, pre, old, post, hi, ?_, ?_⟩
+  · rw [hc]
+    have hmem : (pre ++ old ++ post) ∈ splitNl c := List.mem_of_getElem? hi
+    have hno := splitNl_lines_noNl c _ hmem
+    apply splitNl_joinNl
+    · intro e
+      have := setAt_length (splitNl c) i (pre ++ r ++ post)
+      rw [e] at this
+      exact splitNl_ne_nil c (List.length_eq_zero_iff.mp this.symm)
+    · intro l hl
+      rcases setAt_mem _ _ _ _ hl with rfl | hl
+      · intro hm
+        simp only [List.mem_append] at hm hno
+        rcases hm with (hm | hm) | hm
+        · exact hno (Or.inl (Or.inl hm))
+        · exact hr hm
+        · exact hno (Or.inr hm)
+      · exact splitNl_lines_noNl c l hl
+  · rw [hc]
+    have hmem : (pre ++ old ++ post) ∈ splitNl c := List.mem_of_getElem? hi
+    have hno := splitNl_lines_noNl c _ hmem
+    rw [splitNl_joinNl]
+    · exact setAt_length _ _ _
+    · intro e
+      have := setAt_length (splitNl c) i (pre ++ r ++ post)
+      rw [e] at this
+      exact splitNl_ne_nil c (List.length_eq_zero_iff.mp this.symm)
+    · intro l hl
+      rcases setAt_mem _ _ _ _ hl with rfl | hl
+      · intro hm
+        simp only [List.mem_append] at hm hno
+        rcases hm with (hm | hm) | hm
+        · exact hno (Or.inl (Or.inl hm))
+        · exact hr hm
+        · exact hno (Or.inr hm)
+      · exact splitNl_lines_noNl c l hl
+
+/-- **C11 (which line).** In a file in CRS layout — the first line mentioning `id:R` is line `n ≥ 1` —
+    the operand line for chain offset 0 is line `n - 1`, the SecRule line of rule R. -/
+theorem C11_target_rule_line (id : Bytes) (ls : List Bytes) (n : Nat) (hn : n < ls.length) (hpos : 0 < n)
+    (hfirst : ∀ j, j < n → ∀ l, ls[j]? = some l → contains (b!"id:" ++ id) l = false)
+    (hid : ∀ l, ls[n]? = some l → contains (b!"id:" ++ id) l = true) (base : Nat) :
+    targetIndex id 0 base ls = .ok (base + n - 1) := by
+  induction ls generalizing n base with
+  | nil => simp at hn
+  | cons l ls ih =>
+    cases n with
+    | zero => exact absurd hpos (by omega)
+    | succ m =>
+      have h0 : contains (b!"id:" ++ id) l = false := hfirst 0 (by omega) l rfl
+      simp only [targetIndex, h0, Bool.false_eq_true, if_false]
+      cases m with
+      | zero =>
+        -- the id line is the next one
+        cases ls with
+        | nil => simp at hn
+        | cons l1 ls1 =>
+          have h1 : contains (b!"id:" ++ id) l1 = true := hid l1 rfl
+          rw [targetIndex, h1]
+          simp
+      | succ m' =>
+        have := ih (m' + 1) (by simpa using hn) (by omega)
+          (fun j hj l' hl' => hfirst (j + 1) (by omega) l' (by simpa using hl'))
+          (fun l' hl' => hid l' (by simpa using hl')) (base + 1)
+        rw [this]
+        congr 1
+        omega
+
+/-- for a chain offset `k ≥ 1` the operand line is a line containing `SecRule` -/
+theorem C11_target_chained (id : Bytes) (k : Nat) (hk : 0 < k) (ls : List Bytes) (base i : Nat)
+    (h : targetIndex id k base ls = .ok i) : ∃ l, ls[i - base]? = some l ∧ contains secRule l = true ∧ base < i := by
+  induction ls generalizing base with
+  | nil => simp [targetIndex] at h
+  | cons l ls ih =>
+    simp only [targetIndex] at h
+    split at h
+    · have hk' : (k == 0) = false := by simp; omega
+      simp only [hk', Bool.false_eq_true, if_false] at h
+      -- search among the following lines
+      have key : ∀ (k : Nat) (hk : 0 < k) (b : Nat) (xs : List Bytes) (i : Nat), findChained k b xs = some i →
+          ∃ l, xs[i - b]? = some l ∧ contains secRule l = true ∧ b ≤ i := by
+        intro k hk b xs
+        induction xs generalizing k b with
+        | nil => intro i h; simp [findChained] at h
+        | cons x xs ihx =>
+          intro i h
+          simp only [findChained] at h
+          split at h
+          · rename_i hs
+            split at h
+            · simp only [Option.some.injEq] at h; subst h; exact ⟨x, by simp, hs, Nat.le_refl _⟩
+            · rename_i hk1
+              have hk1' : k ≠ 1 := by simpa using hk1
+              obtain ⟨l', h1, h2, h3⟩ := ihx (k - 1) (by omega) (b + 1) i h
+              refine ⟨l', ?_, h2, by omega⟩
+              have : i - b = (i - (b + 1)) + 1 := by omega
+              rw [this]; simpa using h1
+          · obtain ⟨l', h1, h2, h3⟩ := ihx k hk (b + 1) i h
+            refine ⟨l', ?_, h2, by omega⟩
+            have : i - b = (i - (b + 1)) + 1 := by omega
+            rw [this]; simpa using h1
+      split at h
+      · rename_i j hj
+        simp only [Except.ok.injEq] at h
+        subst h
+        obtain ⟨l', h1, h2, h3⟩ := key k hk (base + 1) ls j hj
+        refine ⟨l', ?_, h2, by omega⟩
+        have : j - base = (j - (base + 1)) + 1 := by omega
+        rw [this]; simpa using h1
+      · simp at h
+    · obtain ⟨l', h1, h2, h3⟩ := ih (base + 1) h
+      refine ⟨l', ?_, h2, by omega⟩
+      have : i - base = (i - (base + 1)) + 1 := by omega
+      rw [this]; simpa using h1
+
+/-- non-vacuity: a two-rule file with CRLF line ends and no final newline; only the operand of rule 942110 changes -/
+def exampleRules : Bytes :=
+  "SecRule ARGS \"@rx a\" \\\r\n    \"id:942100\"\r\nSecRule ARGS \"!@rx old\\\"x\" \\\r\n    \"id:942110,\\\r\n    phase:2\"".toList
+example : updateRegex exampleRules "942110".toList 0 "n\\\"ew".toList =
+    .ok "SecRule ARGS \"@rx a\" \\\r\n    \"id:942100\"\r\nSecRule ARGS \"!@rx n\\\"ew\" \\\r\n    \"id:942110,\\\r\n    phase:2\"".toList := by
+  decide +kernel
+
 end Crs.Props
